@@ -61,7 +61,10 @@ def _pool():
 
 POOL = _pool()
 POINTS = [(Fr(x), Fr(y)) for x, y in [(0, 0), (1, 0), (0, 1), (-1, -1), (H, 3), (-2, H), (3, -H), (5, 7), (-H, -H)]]
-RECTS = [tuple(Fr(v) for v in r) for r in [(0, 0, 1, 1), (-1, -2, 3, H), (H, H, 2, 5), (-3, -3, -1, -H), (0, 0, 0, 0)]]
+# the last four are written with their corners in another order (x0 > x1 and/or y0 > y1), as a /BBox or /Rect may be
+# (added after seeded defect C20_14, a corner-order-blind fast path, was missed)
+RECTS = [tuple(Fr(v) for v in r) for r in [(0, 0, 1, 1), (-1, -2, 3, H), (H, H, 2, 5), (-3, -3, -1, -H), (0, 0, 0, 0),
+                                           (3, 5, 1, 2), (3, 2, 1, 5), (1, 5, 3, 2), (0, 0, 0, -3)]]
 
 META = {
     "rule": (
